@@ -417,7 +417,13 @@ func (s *Shard) SearchPoints(searchRequest models.SearchRequest) ([]models.Searc
 				}
 				res, err := dec.Query(p)
 				if err != nil {
-					return nil, fmt.Errorf("could not select point data, %s: %w", p, err)
+					/* The path cannot be followed in this point, e.g.
+					 * "a.b" is selected but "a" is a number or a string here
+					 * while it is a map in other points. That is the same as
+					 * the property not being there, it must not fail the
+					 * search for every other point. */
+					s.logger.Debug().Err(err).Str("property", p).Msg("could not select property, treating as missing")
+					continue
 				}
 				if len(res) == 0 {
 					// Didn't find anything for this property
